@@ -88,7 +88,8 @@ def rejects(lineno: Optional[int], offset: Optional[int], end_lineno: Optional[i
     pre: (offset is None or offset <= 3) and (end_offset is None or end_offset <= 4)
     post: _
     """
-    tick()
+    if tick():
+        return True
     kind, nfile, sec_off = _p(0, 0), _p(1, 1), _p(2, 1)
     msg = kind
     if excluded("C12.rejects", kind=kind, lineno=lineno, offset=offset, end_lineno=end_lineno,
@@ -124,7 +125,8 @@ def accepts(n0: bool, n1: bool, s0: bool, s1: bool, blank: bool) -> bool:
     pre: True
     post: _
     """
-    tick()
+    if tick():
+        return True
     nfile, sec_off = bits(n0, n1), bits(s0, s1)
     if nfile >= 3 or sec_off >= 3:
         return True
@@ -148,7 +150,8 @@ def rejects_reach(lineno: Optional[int], s0: bool) -> bool:
     pre: lineno is None or 1 <= lineno <= 2
     post: _
     """
-    tick()
+    if tick():
+        return True
     r, code = _setup(1, 2 if s0 else 0)
     _state["raise"] = SyntaxError("invalid syntax", ("answer.py", lineno, 1, None, lineno, 2))
     try:
